@@ -5,6 +5,30 @@ import json, sys
 TECH = "bounded symbolic execution of the real code: go/ssa of /repo's working tree interpreted over SMT terms, every branch and assertion decided by z3/cvc5 (single-byte conditions by an exact 256-value domain procedure), counterexamples replayed natively"
 
 claimed = {
+ "C03": dict(
+   text="Bounded model checking of the whole query pipeline from statement text (real lexer, parser, semantic hooks, planner with its goroutines, memory driver): for 17 one- and two-clause SELECT shapes of the conjunctive fragment (constants, new and repeated bindings in every position, anchored predicates and anchor bindings, joins on one and two bindings, a product, an existence clause) and K<=2 (thorough 3) symbolic triples, the result table must contain exactly one row per satisfying assignment clause->stored triple, every row being a solution and every solution a row, the comparison being one fork-free solver obligation per row. Three planner/driver defects are reproduced natively as known findings.",
+   note="Statement concrete, data symbolic over the small universe; canonical schedule (rows compared as a multiset); extraction keywords (ID/TYPE/AT/AS), global time bounds and several FROM graphs are not in the shape list yet.",
+   ref="DESIGN.md §4 C03"),
+ "C04": dict(
+   text="Bounded model checking of data and graph statements through the whole pipeline: eleven statements (INSERT/DELETE into one and two graphs, CREATE, DROP, CONSTRUCT, DECONSTRUCT, CONSTRUCT with ';' reification, a CONSTRUCT into a missing graph, CREATE of an existing graph) against a store with two graphs of K symbolic triples each: afterwards the store lists exactly the expected graphs and every graph holds exactly its previous content plus/minus the listed or template-instantiated triples (reference solutions as in C03), each once; a reified template adds per solution row exactly _subject/_predicate/_object and the extra fact on one blank node; rejected statements change nothing.",
+   note="K=1 quick, 2 thorough; immutable predicates only (the predicate-kind defect is C02/C03's); one statement per run (sequences are not covered yet).",
+   ref="DESIGN.md §4 C04"),
+ "C07": dict(
+   text="Bounded model checking of concurrent use of the real memory driver: two goroutines with one operation each in six scenarios; the engine's scheduler enumerates every interleaving at synchronisation-operation granularity (at most 3 preemptions, 8 501 schedules in the quick tier) and a happens-before race detector (vector clocks over interpreted loads, stores and map operations) checks data-race freedom; on every schedule there is no panic or deadlock, a batch add is all-or-nothing for a concurrent listing, exactly one of two concurrent creates wins, every lookup closes its channel. The race on a shared LookupOptions with LatestAnchor is found, confirmed natively under the Go race detector and reported as a known finding.",
+   note="Two goroutines, one operation each, concrete data; the schedule is the quantified dimension (no SMT query is needed for it); linearizability is checked through scenario-specific atomicity obligations, not a general history checker.",
+   ref="DESIGN.md §4 C07"),
+ "C08": dict(
+   text="Bounded model checking of crash/hang/leak freedom of the whole pipeline: (stage 2) ten statement templates with a hole of up to 2 (thorough 3) symbolic bytes in a token position - whatever the lexer makes of the hole; (stage 3) every token-type sequence up to 6 (thorough 9) tokens decided by the parser, rendered with sample texts; and a corpus of 16 awkward well-formed statements; each executed against an empty and a populated store with the lexer goroutine, the update() writers and the planner's workers running as engine coroutines: no panic in any goroutine, a table or an error is returned, the call returns (no deadlock) and no goroutine started for it is left. Found and repaired: SUM over an empty result panicked (8e5b5b6), negative LIMIT (627d3e6). Known finding: the lexer goroutine left blocked after a parse error.",
+   note="Stage 1 (bytes to tokens) is C16; canonical schedule; holes longer than N and texts outside the sample pool are outside the claim.",
+   ref="DESIGN.md §4 C08"),
+ "C14": dict(
+   text="Bounded model checking of metamorphic relations on the real pipeline: for ten SELECT shapes over K symbolic triples the multiset of result rows (compared fork-free as printed rows) is unchanged by a consistent renaming of the bindings, by chanSize/bulkSize, by repeated execution, by swapping the two clauses, and by partitioning the data over two FROM graphs; adding a triple never removes a row.",
+   note="K=1 quick, 2 thorough; GOMAXPROCS and real scheduling are not modelled; ORDER BY determinism under map iteration order is not covered yet.",
+   ref="DESIGN.md §4 C14"),
+ "C20": dict(
+   text="Bounded model checking of failure propagation: a fault-injecting storage.Store/Graph wrapper (pure interface implementation in the harness) lets every driver call fail - before delivering anything, after the first element, or on write - under solver-controlled fault variables, at most 1 (thorough 2) faults per execution; for 17 statements (every simpleFetch branch, joins, INSERT, DELETE, CONSTRUCT, DECONSTRUCT, SHOW, CREATE, DROP) and bulk sizes 1 and 2: if any fault fired Execute returns an error, it always returns (no deadlock), and no goroutine is left. Found and repaired: SHOW GRAPHS returned (nil,nil) on a failing driver (bb988ef). Known findings: CONSTRUCT/DECONSTRUCT drop write errors.",
+   note="Canonical schedule of the engine's coroutines (the design's schedule mode for this property is not enabled yet); concrete data.",
+   ref="DESIGN.md §4 C20"),
  "C10": dict(
    text="Bounded model checking of the real left-join kernel Table.LeftOptionalJoin (the operation OPTIONAL is planned onto) on two symbolic tables of up to 2 (thorough 3) rows sharing 0, 1 or 2 bindings: every left row appears once per agreeing right row or exactly once NULL-extended, and nothing else appears; which rows agree is decided by the solver. This check found and led to the repair of a genuine defect (an optional clause with disjoint bindings and no match removed every row, commit 57d2ef2); the mixed-kind join column defect is a known finding.",
    note="Kernel level (exported table API); join cells are one symbolic byte over {a,b}; the planner-level OPTIONAL paths (processClause/addSpecifiedData/tripleToRow) are claimed only where end-to-end harnesses are registered in the evidence.",
